@@ -47,7 +47,9 @@ func (f *Plusp) Call(s *slip.Scope, args slip.List, depth int) slip.Object {
 			return slip.True
 		}
 	case slip.Octet:
-		return slip.True
+		if 0 < ta {
+			return slip.True
+		}
 	case slip.SingleFloat:
 		if 0.0 < ta {
 			return slip.True
